@@ -65,9 +65,12 @@ type Case struct {
 	Method   string   `json:"method,omitempty"`
 	Docs     []Line   `json:"docs,omitempty"`
 	Handlers []string `json:"handlers"`
-	Lines    []Line   `json:"lines,omitempty"`
-	End      string   `json:"end,omitempty"`
-	Tail     string   `json:"tail,omitempty"` // unterminated bytes before EOF (post): no reader interprets them
+	// what the registered handlers do: "" / "fast" record, "slow" work 2 ms first, "reentrant" call ListTools on the same client and wait
+	HandlerKind string `json:"handlerKind,omitempty"`
+	Expect      int    `json:"expect,omitempty"` // burst cases: handler invocations the generator expects (stdio: awaited before the quiet window)
+	Lines       []Line `json:"lines,omitempty"`
+	End         string `json:"end,omitempty"`
+	Tail        string `json:"tail,omitempty"` // unterminated bytes before EOF (post): no reader interprets them
 	// legacy
 	Pre        []Line `json:"pre,omitempty"`
 	NoEndpoint bool   `json:"noEndpoint,omitempty"` // generator's expectation only (chooses the Initialize deadline)
@@ -1097,5 +1100,6 @@ func genCases(r *rand.Rand, thorough bool) []*Case {
 	g.handshakeCases()
 	g.idCases()
 	g.decodeCases()
+	g.burstCases()
 	return g.cases
 }
